@@ -583,6 +583,22 @@ func init() {
 				}
 			}
 		}
+		// long block-size lists (a wide file node has hundreds): one packed run / one tag per element, 256..1024 elements
+		for _, n := range []int{255, 256, 257, 300, 1024} {
+			ids := make([]int, n)
+			var unpacked []CTok
+			for i := range ids {
+				ids[i] = 1 + i%2
+				unpacked = append(unpacked, CTok{F: 4, WT: "varint", V: raw(1 + i%2), Sub: "s"})
+			}
+			for pi, bs := range [][]CTok{{{F: 4, WT: "bytes", V: raw(ids), Sub: "s"}}, unpacked} {
+				toks := append([]CTok{{F: 1, WT: "varint", V: raw(1), Sub: "s"}, {F: 3, WT: "varint", V: raw(1), Sub: "s"}}, bs...)
+				cc := &CodecCase{Fam: "codec", ID: fmt.Sprintf("wide-%d-%d", n, pi), Toks: toks, Mut: "none", Vec: n % 2}
+				if err := runCodecCase(cc, tr); err != nil {
+					return err
+				}
+			}
+		}
 		// the permission table: every type x a family of modes, with and without an mtime
 		for ty := int64(0); ty < 6; ty++ {
 			for _, mode := range []int64{0, 1, 0o444, 0o555, 0o644, 0o755, 0o7777, 0o100644, 0o40755, 0xFFFFFFFF} {
